@@ -6,7 +6,7 @@ CFG = {
     "lean": "Aqv.Props.C13",
     "exe": "aqmodel_c13",
     "harness": "c13",
-    "gen": ["params", "pow"],
+    "gen": ["params", "pow", "translated"],
     "overlay": ["consensus/aquahash/access.go"],
     "trivial_outputs": ["panic"],
     "min_cases": 20000,
